@@ -73,7 +73,13 @@ def check_case(case) -> Result:
     # mass is preserved
     m_in = pt.mass(s)
     m_out = pt.mass(out)
-    tol = 10 ** (-prec) * max(1, shifts) + 1e-6 * (n + 3)
+    # every written shift is rounded to `precision` (error <= half a unit each); a residue whose net shift is below the documented
+    # 1e-6 significance threshold is not written; under an isotope label named modifications are weighed through their composition
+    # (C03 tolerance 1e-4 each)
+    E_all = model.expand_static(pep)
+    small = sum(1 for _i, ms in E_all['internal'] if 0 < abs(refmods.mods_mass(ms, True)) <= 2e-6)
+    named = sum(mm for t, mm in refmass.all_mods(pep) if refmods.resolve(t)['kind'] in ('unimod', 'psimod', 'glycan'))
+    tol = 0.5 * 10 ** (-prec) * max(1, shifts) + 1e-9 + 2e-6 * small + (1e-4 * named + 1e-6 * n if pep['isotope'] else 0)
     diff = m_out - m_in
     if abs(diff) > tol:
         # known repetition of annotations that have no single residue: they are added once per residue of the split
@@ -110,14 +116,15 @@ def check_case(case) -> Result:
         for i, aa in enumerate(pep['seq']):
             exp = refmods.mods_mass(internal.get(i, []), True) + _label_delta(pep['isotope'], refchem.RESIDUES[aa])
             got = sum(v[1] * m for v, m in oi.get(str(i), []))
-            if abs(got - exp) > 10 ** (-prec) + 1e-4:  # 1e-4: tabulated vs composition-derived mass of a named modification (C03)
+            site_named = sum(mm for t, mm in internal.get(i, []) if refmods.resolve(t)['kind'] in ('unimod', 'psimod', 'glycan'))
+            if abs(got - exp) > 0.5 * 10 ** (-prec) + 2e-6 + (1e-4 * site_named if pep['isotope'] else 0):
                 r.fail('the shifts sit on the residues that were modified (rules and labels expanded per residue)', 'C18/site/residue',
                        index=i, expected=exp, got=got, result=out, **ctx)
                 break
         for f in ('nterm', 'cterm', 'labile'):
             exp = refmods.mods_mass(pep[f], True)
             got = sum(v[1] * m for v, m in (obs[f] or []))
-            if abs(got - exp) > 10 ** (-prec) + 1e-4:
+            if abs(got - exp) > 0.5 * 10 ** (-prec) + 1e-9:
                 r.fail('terminal and labile modifications become one numeric shift at the same place', f'C18/site/{f}', expected=exp, got=got,
                        result=out, **ctx)
     # annotation input gives the same string
